@@ -24,6 +24,8 @@ pub enum VerdictS {
   Altered(Vec<u8>),
   Invalid,
   Failed,
+  /// the modulator is unreachable: every call fails, `operations()` included
+  Down,
 }
 
 #[derive(Clone, Debug)]
@@ -47,6 +49,8 @@ pub struct ModScript {
   pub calls: Vec<(String, String)>,
   /// latency control: while `hold` is set every call parks until the harness releases it (`Some(true)`: answer as
   /// scripted, `Some(false)`: fail) — the real handler is suspended inside the modulator call meanwhile
+  /// the modulator is unreachable for its next `down_calls` calls (`operations()` included): they fail
+  pub down_calls: u32,
   pub hold: bool,
   /// when non-empty only calls whose description starts with this prefix are parked
   pub hold_prefix: String,
@@ -70,6 +74,7 @@ impl ScriptedModulator {
         auth: AuthS::Failure,
         direct: Some(true),
         calls: Vec::new(),
+        down_calls: 0,
         hold: false,
         hold_prefix: String::new(),
         parked: Vec::new(),
@@ -89,6 +94,16 @@ impl ScriptedModulator {
       rx
     };
     rx.await.unwrap_or(false)
+  }
+  /// consumes one of the scripted "unreachable" calls
+  fn unreachable(&self) -> bool {
+    let mut s = self.script.lock().unwrap();
+    if s.down_calls > 0 {
+      s.down_calls -= 1;
+      true
+    } else {
+      false
+    }
   }
   pub fn set_hold(&self, hold: bool) {
     self.script.lock().unwrap().hold = hold;
@@ -125,6 +140,9 @@ impl narwhal_modulator::Modulator for ScriptedModulator {
     Ok(self.script.lock().unwrap().protocol.as_str().into())
   }
   async fn operations(&self) -> anyhow::Result<Operations> {
+    if self.unreachable() {
+      anyhow::bail!("modulator unreachable (scripted)");
+    }
     Ok(self.script.lock().unwrap().ops)
   }
   async fn authenticate(&self, r: AuthRequest) -> anyhow::Result<AuthResponse> {
@@ -150,6 +168,9 @@ impl narwhal_modulator::Modulator for ScriptedModulator {
     if !self.gate(format!("payload {} {}", r.from, r.channel_handler)).await {
       anyhow::bail!("modulator call failed (latency script)");
     }
+    if self.unreachable() {
+      anyhow::bail!("modulator unreachable (scripted)");
+    }
     let v = {
       let mut s = self.script.lock().unwrap();
       s.calls.push(("payload".into(), format!("{}|{}|{}", r.from, r.channel_handler, hex(r.payload.as_slice()))));
@@ -161,7 +182,7 @@ impl narwhal_modulator::Modulator for ScriptedModulator {
         result: ForwardBroadcastPayloadResult::ValidWithAlteration { altered_payload: self.buffer(&p).await },
       }),
       VerdictS::Invalid => Ok(ForwardBroadcastPayloadResponse { result: ForwardBroadcastPayloadResult::Invalid }),
-      VerdictS::Failed => anyhow::bail!("scripted payload validation failure"),
+      VerdictS::Failed | VerdictS::Down => anyhow::bail!("scripted payload validation failure"),
     }
   }
   async fn forward_event(&self, r: ForwardEventRequest) -> anyhow::Result<ForwardEventResponse> {
